@@ -11,7 +11,9 @@ TRun == /\ Is("Run") /\ (\A r \in Ranks : st[r].pc = "ret")
         /\ Start(Ev.plan, Ev.n0, IF Ev.world = 0 THEN 1 ELSE Ev.world, Ev.builtin = 1, Ev.targetPos = 1)
         /\ l' = l + 1
 TCall == Is("Call") /\ Call(Ev.rank) /\ l' = l + 1
-TCallback == Is("Callback") /\ Callback(Ev.rank, Ev.n, Ev.ret = 1, Ev.cls) /\ l' = l + 1
+\* (a user callback with state of its own: it is the object handed to the integrator that is invoked every time, so its answers are those of
+\*  an object that has seen all invocations)
+TCallback == Is("Callback") /\ Callback(Ev.rank, Ev.n, Ev.ret = 1, Ev.cls) /\ (("want" \in DOMAIN Ev) => Ev.ret = Ev.want) /\ l' = l + 1
 TReturned == Is("Returned") /\ Returned(Ev.rank, Ev.n) /\ l' = l + 1
 TRunEnd == Is("RunEnd") /\ Finished /\ UNCHANGED loopVars /\ l' = l + 1
 Next == TRun \/ TCall \/ TCallback \/ TReturned \/ TRunEnd
